@@ -21,7 +21,8 @@ RULE = (
     'registration failing after >=1 success, or a DIP parse that raises with custom units defined, or nesting >= '
     '2. Later rounds: two different custom conversion classes with overlapping lifetimes; data(Format.QUANTITY) '
     'after a parse; a prefixed use of a scoped unit followed by a later scope that defines the symbol '
-    'differently; solver variants (with / plain / raising / comparing). Distinct = distinct case JSON.'
+    'differently; solver variants (with / plain / raising / comparing). Rounds 7-8: registrations interrupted by '
+    'a BaseException; units with a NaN magnitude. Distinct = distinct case JSON.'
 )
 ASSUMPTIONS = [
     "scopes are closed innermost-first (LIFO), single-threaded",
